@@ -236,6 +236,13 @@ theorem rect_pip_iff (x0 y0 x1 y1 : Rat) (hx : x0 < x1) (hy : y0 < y1) (p : Pt) 
     | (exfalso; linarith)
     | grind
 
+/-- **ray-direction independence**: off the boundary the east-going and the west-going ray agree on the
+    crossing parity, so "inside" does not depend on the direction the ray is cast in -/
+theorem parity_ray_independent (p v : Pt) (r : List Pt)
+    (hoff : onBoundary p (ringEdges (v :: r)) = false) :
+    (ringEdges (v :: r)).countP (crossesRay p) % 2 = (ringEdges (v :: r)).countP (crossesRayW p) % 2 :=
+  GV.parity_ray_independent p v r hoff
+
 /-! ### non-vacuity -/
 example : pointInRing (0, 0) (closeUp [(0, 1), (-1, 0), (0, -1), (1, 0)]) = true ∧
     pointInRing (3, 2) (closeUp [(0, 0), (4, 0), (4, 4), (2, 2), (0, 4)]) = true ∧
